@@ -139,4 +139,19 @@ CHECKS = {
          "the document parsed by json/orjson/PyYAML/msgpack/tomllib equals the reference basic form with the format's native types left native and TOML "
          "null fields absent; the three entry points produce the identical document.",
     note="the representable-subset predicate is part of the enumerator and printed in the evidence; values outside it are counted per format, not judged"),
+ "C06": dict(engine="E1 schema-space", design_ref="6/C06",
+    technique="exhaustive enumeration of schemas x targets x (dialect, all_refs) x values, each instance validated by jsonschema.Draft202012Validator",
+    text="Every schema-supported schema of depth <= 1 (2 in thorough, plus a slice of depth 2 in quick), bare, as a dataclass field with an Optional twin "
+         "and under two alias sources x {DRAFT_2020_12, OPEN_API_3_1} x all_refs x every value: the JSON round trip of the documented serialization "
+         "(by alias where aliases exist) must validate against build_json_schema's output under a standard Draft 2020-12 validator; required == fields "
+         "without default; same-named classes and generic specialisations must not share a definition.",
+    note="standard validator = jsonschema 4.26 from the offline wheelhouse (installed by setup.sh into /verif/.deps); four open findings (Flag enum, non-string propertyNames - both pinned by tests -, self reference, definition-name collision) attributed per validation error"),
+ "C20": dict(engine="E1 schema-space + E2 histories", design_ref="6/C20",
+    technique="exhaustive enumeration of owner configurations x defaults x build parameters with metaschema / $ref-closure / model-round-trip oracles + BFS over JSONSchemaBuilder.build orders",
+    text="(a) every schema-supported schema as a defaulted field of an owner dataclass x domain values as defaults x 12 owner configurations (key-dropping "
+         "and renaming options directly and through Config.dialect, sort_keys, lazy, namedtuple_as_dict, serialization_strategy) x dialect x all_refs x "
+         "ref_prefix x with_definitions: no exception, metaschema-valid, every $ref carries the prefix and names a collected definition, "
+         "JSONSchema.from_dict(to_dict()).to_dict() is the identity; (b) BFS over every order of build calls for four types sharing nested classes on one "
+         "builder (three builder variants): each result equals a fresh builder's and definitions accumulate to the order-independent union.",
+    note="one open finding (self-referencing dataclass recursion); fixes for _default KeyError, LiteralString, Final, slots and mutable NamedTuple defaults are what make the rest pass"),
 }
